@@ -1,14 +1,25 @@
 #!/bin/bash
-# setup_cmd: full .vo build of the whole Coq development (offline), from files on disk only.
+# setup_cmd: full .vo build (offline, from files on disk only) of the shared libraries and of the
+# theory directory of every property claimed in MANIFEST.json.
 set -e
 here="$(cd "$(dirname "$0")" && pwd)"
 cd "$here"
 mkdir -p build evidence
 export PYTHONPATH="$here"
-/venv/bin/python - <<'PY'
+targets=$(/venv/bin/python - <<'PY'
+import json
+from pathlib import Path
 from harness.lib import core
 core.ensure_makefile()
+m = json.load(open(core.VERIF / 'MANIFEST.json'))
+dirs = ['Base'] + sorted({c['property_id'] for c in m['checks']})
+out = []
+for d in dirs:
+    for p in sorted((core.THEORIES / d).glob('*.v')):
+        out.append(str(p.relative_to(core.COQ)) + 'o')
+print(' '.join(out))
 PY
+)
 cd coq
-timeout 7200 make -j16 --no-print-directory 2>&1 | tail -40
+timeout 7200 make -j16 --no-print-directory $targets 2>&1 | tail -40
 test "${PIPESTATUS[0]}" -eq 0
